@@ -4,10 +4,9 @@
 
    Every (detection path, operator, operand type pair, operand pair) of the
    small machine is one initial state; the invariant says that the as-coded
-   outcome IS the ideal outcome, except in the deviation classes that
-   known_findings.json lists for the real library (mixed signedness, narrower
-   rhs in subtraction, lowest()/-1, 0 << wide, (-1) << digits, unary minus of
-   promoted operands).  So TLC proves, for the small machine, that there is no
+   outcome IS the ideal outcome, except in the deviation class that
+   known_findings.json still lists as open for the real library (operands of
+   different signedness under +,-,*,/).  So TLC proves, for the small machine, that there is no
    OTHER deviation: same-signedness +,-,*,/ with equal-or-wider rhs, <<, unary
    minus of int-or-wider operands and every integer conversion are exact iffs
    on both paths.  The same AsCodedOverflow operators judge the recorded events
@@ -68,14 +67,10 @@ Spec == Init /\ [][Next]_vars
 Mixed == lt.s # rt.s
 \* the deviation classes of known_findings.json, as predicates on a design-level case
 KnownDeviation ==
-    \/ kind = "bin" /\ op \in {"add", "sub", "mul", "div"} /\ Mixed                              \* OVF-MIXED-SIGN-*
-    \/ kind = "bin" /\ op = "sub" /\ path = "portable" /\ ~Mixed /\ lt.s = 1 /\ diag = "false_overflow"
-                    /\ rt.w < OpResult(op, lt, rt).w                                             \* OVF-SUB-NARROW-RHS
-    \/ kind = "bin" /\ op = "mul" /\ path = "portable" /\ ~Mixed /\ lt.s = 1 /\ diag = "ub" /\ b = FromInt(-1)   \* OVF-MUL-MINUS-ONE-UB
-    \/ kind = "bin" /\ op = "shl" /\ diag = "ub" /\ IsZero(a) /\ Ge(b, FromInt(Promote(lt).w))   \* OVF-SHL-ZERO-UB
-    \/ kind = "bin" /\ op = "shl" /\ diag = "false_overflow" /\ a = FromInt(-1)
-                    /\ b = FromInt(TDigits(Promote(lt)))                                         \* OVF-SHL-LOWEST
-    \/ kind = "neg" /\ diag = "false_overflow" /\ lt.w < WINT                                    \* OVF-NEG-PROMOTED
+    kind = "bin" /\ op \in {"add", "sub", "mul", "div"} /\ Mixed                                 \* OVF-MIXED-SIGN-*
+\* (the classes OVF-SUB-NARROW-RHS, OVF-MUL-MINUS-ONE-UB, OVF-SHL-ZERO-UB, OVF-SHL-LOWEST and OVF-NEG-PROMOTED were
+\*  removed from this predicate when the corresponding fix: commits went into /repo and the as-coded model was
+\*  updated with them: TLC now proves their absence on the small machine)
 
 DesignInv == diag \in {"init", "ok"} \/ KnownDeviation
 =============================================================================
